@@ -60,7 +60,7 @@ def vecOfStr (s : String) : Option SVec := do
 def vecList (s : String) : Option (List SVec) := (splitOn' s ",").mapM vecOfStr
 
 def strOfVec (v : SVec) : String :=
-  let t := v.norm.terms.toList
+  let t := v.norm.terms
   if t.isEmpty then "-" else ";".intercalate (t.map (fun p => s!"{p.1}:{hexOfScalar p.2}"))
 
 def strOfVecs (vs : List SVec) : String := if vs.isEmpty then "-" else ",".intercalate (vs.map strOfVec)
